@@ -2206,6 +2206,55 @@ func holdsAtOrViaFlag(b *ssa.BasicBlock, pred func(facts []canonCond) bool) bool
 			return true
 		}
 	}
+	// the same through an integer code (status := 0 on the success path, an error code on the others;
+	// "if status != 0 { ...; return }"): b is entered under  phi ==/!= k  and pred holds on every incoming
+	// edge whose value is compatible with that
+	for _, f := range facts {
+		if f.Op != token.EQL && f.Op != token.NEQ {
+			continue
+		}
+		ph, isPhi := f.X.(*ssa.Phi)
+		kv := f.Y
+		if !isPhi {
+			ph, isPhi = f.Y.(*ssa.Phi)
+			kv = f.X
+		}
+		k, isK := constInt(kv)
+		if !isPhi || !isK {
+			continue
+		}
+		if bt, ok := ph.Type().Underlying().(*types.Basic); !ok || bt.Info()&types.IsInteger == 0 {
+			continue
+		}
+		all, any := true, false
+		for _, vc := range valueCases(ph, nil) {
+			if c, isC := constInt(vc.V); isC {
+				if (c == k) != (f.Op == token.EQL) {
+					continue
+				}
+			}
+			var cf []canonCond
+			for _, cd := range vc.Conds {
+				cf = append(cf, canonOf(cd))
+			}
+			if _, isC := constInt(vc.V); !isC {
+				// the value on this edge is not a constant: it takes part only if the edge's own conditions
+				// do not already state the opposite (the error code is returned where it was found non-zero)
+				src := vc.V
+				if cmpHolds(cf, func(v ssa.Value) bool { return v == src }, func(v ssa.Value) bool { c, ok := constInt(v); return ok && c == k }, negOp(f.Op)) {
+					continue
+				}
+				cf = append(cf, canonCond{Op: f.Op, X: vc.V, Y: kv, True: true})
+			}
+			any = true
+			if !pred(cf) {
+				all = false
+			}
+		}
+		if any && all {
+			return true
+		}
+	}
 	return false
 }
 
